@@ -265,6 +265,12 @@ func createConn(
 
 	conn.setRemoteEpoch(0)
 	conn.setLocalEpoch(0)
+	if resumeState != nil {
+		// An imported connection is established from the start: its accessors
+		// report the imported state before the first Read or Write.
+		resumeState.LocalVersion = protocol.Version1_2
+		conn.state = resumeState
+	}
 
 	return conn, nil
 }
